@@ -426,6 +426,17 @@ func TestChannelWrite(t *testing.T) {
 			for i := 0; i < n; i++ {
 				m, _, _ := genMetric(t, e)
 				m.TS = now + genWindowOffset(t, d.behind, d.ahead)
+				// a third of the rows: moved to an edge of their calendar family (first / last ms and the
+				// ms next to them, also across the edge), provided the verdict about the window stays the
+				// same and the thresholds stay `guard` away. The draw does not depend on the clock.
+				if edge := rapid.IntRange(0, 17).Draw(t, "edge"); edge < 6 {
+					b := atFamilyEdge(d.interval.Int64(), m.TS, edge)
+					far := func(off, threshold int64) bool { return threshold == 0 || off-threshold >= guard || threshold-off >= guard }
+					if outsideWindow(b-now, d.behind, d.ahead) == outsideWindow(m.TS-now, d.behind, d.ahead) && far(b-now, -d.behind) && far(b-now, d.ahead) {
+						m.TS = b
+						classes["row=on-or-next-to-a-family-edge"] = true
+					}
+				}
 				ms, outside = append(ms, m), append(outside, outsideWindow(m.TS-now, d.behind, d.ahead))
 			}
 			ms, outside = fit("TestChannelWrite", ms, outside, rc, f)
@@ -446,7 +457,6 @@ func TestChannelWrite(t *testing.T) {
 			classes[d.winClass] = true
 
 			// the model's expectation for this request
-			calc := d.interval.Calculator()
 			nOut, nIn, nSensitive := 0, 0, 0
 			stepGroups := map[groupKey]bool{}
 			for _, a := range acc {
@@ -460,7 +470,8 @@ func TestChannelWrite(t *testing.T) {
 					continue
 				}
 				nIn++
-				k := groupKey{d.name, jumpHash(a.c.TagsHash, d.shards), calc.CalcFamilyTime(a.c.TS)}
+				famFirst, _ := familyOf(d.interval.Int64(), a.c.TS) // the calendar family (independent model), not the calculator
+				k := groupKey{d.name, jumpHash(a.c.TagsHash, d.shards), famFirst}
 				if want[k] == nil {
 					want[k] = map[string]int{}
 				}
